@@ -131,6 +131,9 @@ def stage_a(m, k):
 
 def cmd_tests(n):
     ms = load("mutants.jsonl")
+    only = os.environ.get("MUTLAB_FILES")
+    if only:
+        ms = [m for m in ms if m["file"] in only.split(",")]
     random.Random(1).shuffle(ms)
     if n:
         ms = ms[:n]
